@@ -98,8 +98,6 @@ pub struct Fresh {
     pub tables: Tables,
     pub sign_blocks: Result<String, String>,
     pub sign_legacy: Option<Result<String, String>>,
-    /// root of the blocks builder for every beacon 0..=imported_to asked on that node
-    pub roots_blocks: Vec<Result<String, String>>,
 }
 
 pub struct FreshCache {
@@ -129,16 +127,9 @@ impl FreshCache {
         let sign_blocks = sut.sign_blocks(imported_to).await;
         let sign_legacy = if (imported_to + 1) % RANGE == 0 { Some(sut.sign_legacy(imported_to).await) } else { None };
         let tables = read_tables(&db);
-        // only needed to name the cause of a wrong root at a beacon inside a complete range
-        let mut roots_blocks = vec![];
-        if (imported_to + 1) % RANGE == 0 {
-            for b in 0..=imported_to {
-                roots_blocks.push(sut.root_blocks(b).await);
-            }
-        }
         drop(sut);
         remove_db(&db);
-        let f = Arc::new(Fresh { tables, sign_blocks, sign_legacy, roots_blocks });
+        let f = Arc::new(Fresh { tables, sign_blocks, sign_legacy });
         self.map.lock().unwrap().entry(key).or_insert(f).clone()
     }
 }
@@ -236,11 +227,12 @@ fn resolve_fork(to: ForkTo, tip: u64, first_stored: Option<u64>) -> Option<u64> 
     if h < tip { Some(h) } else { None }
 }
 
+/// beacons never exceed the node's tip (they are `tip - security parameter` rounded down, C17)
 fn resolve_target(t: Target, tip: u64) -> Option<u64> {
     match t {
         Target::Tip => (tip > 0).then_some(tip),
         Target::TipMinus5 => (tip > 5).then(|| tip - 5),
-        Target::Abs(x) => Some(x),
+        Target::Abs(x) => (x <= tip).then_some(x),
     }
 }
 
@@ -359,8 +351,10 @@ impl Run<'_> {
         let mut scans = 0;
         let mut from_slot = 0u64;
         let mut echo_rollbacks = 0;
+        let mut echo_after_forwards = false;
+        let mut forwards_in_scan = 0;
         let mut real_rollbacks: Vec<(u64, u64)> = vec![]; // (height, slot)
-        let mut streamer_lpp: Option<(u64, String)> = None;
+        let mut scan_lpps: Vec<(Option<(u64, String)>, bool)> = vec![]; // per scan: streamer's last polled point, timed out
         let mut intersect_not_found = false;
         for s in &served {
             match s {
@@ -377,31 +371,49 @@ impl Run<'_> {
                             && p != (*slot, hash.clone())
                         {
                             N_SHADOW_MISMATCH.fetch_add(1, Ordering::Relaxed);
+                            if std::env::var("MC_DEBUG").is_ok() {
+                                eprintln!("shadow mismatch: predicted {p:?}, scan started from ({slot}, {hash}) in {}", serde_json::to_string(&history[..=i]).unwrap());
+                            }
                         }
                     }
                     from_slot = *slot;
+                    forwards_in_scan = 0;
+                    scan_lpps.push((None, false));
                     if !found && !not_sent {
                         intersect_not_found = true;
                     }
                 }
                 Served::Forward(b) => {
-                    if b.number <= t {
-                        streamer_lpp = Some((b.slot(), b.hash_hex()));
+                    forwards_in_scan += 1;
+                    if b.number <= t
+                        && let Some(l) = scan_lpps.last_mut()
+                    {
+                        l.0 = Some((b.slot(), b.hash_hex()));
                     }
                 }
                 Served::Backward { height, slot } => {
                     if *slot == from_slot {
                         echo_rollbacks += 1;
+                        if forwards_in_scan > 0 {
+                            echo_after_forwards = true;
+                        }
                     } else {
                         real_rollbacks.push((*height, *slot));
                         let hash = if *height == 0 { String::new() } else { chain[*height as usize - 1].hash_hex() };
-                        streamer_lpp = Some((*slot, hash));
+                        if let Some(l) = scan_lpps.last_mut() {
+                            l.0 = Some((*slot, hash));
+                        }
                     }
                 }
                 Served::ForkDuringScan { .. } => {
                     N_MIDSCAN_FORKS.fetch_add(1, Ordering::Relaxed);
                 }
-                Served::Await | Served::Timeout => {}
+                Served::Timeout => {
+                    if let Some(l) = scan_lpps.last_mut() {
+                        l.1 = true;
+                    }
+                }
+                Served::Await => {}
             }
         }
         if intersect_not_found {
@@ -418,14 +430,18 @@ impl Run<'_> {
         if !pre.blocks.is_empty() {
             self.rollbacks_applied += real_rollbacks.len() as u32;
         }
-        match &error {
-            None => {
-                if let Some((s, h)) = streamer_lpp {
-                    self.lpp = Lpp::Point(s, h);
-                }
+        // the importer keeps the streamer's last polled point of every scan that ended without error
+        for (n, (l, timed_out)) in scan_lpps.iter().enumerate() {
+            let last_scan = n + 1 == scan_lpps.len();
+            if *timed_out {
+                continue;
             }
-            Some(_) if node_timeout => {} // failed inside the scan: last polled point not updated
-            Some(_) => self.lpp = Lpp::Unknown(hash64(&serde_json::to_string(&history[..=i]).unwrap())),
+            if last_scan && error.is_some() {
+                // failed somewhere in or after the scan: cannot tell whether the cursor moved
+                self.lpp = Lpp::Unknown(hash64(&serde_json::to_string(&history[..=i]).unwrap()));
+            } else if let Some((s, h)) = l {
+                self.lpp = Lpp::Point(*s, h.clone());
+            }
         }
         if let Some(e) = &error {
             N_IMPORT_ERRORS.fetch_add(1, Ordering::Relaxed);
@@ -450,11 +466,9 @@ impl Run<'_> {
         let fresh = self.fresh.get(&chain, t, self.cfg).await;
         let node_part = post.up_to(t);
         let mut expected = fresh.tables.up_to(t);
-        if self.pruned
-            && let Some(m) = node_part.min_block()
-        {
+        if self.pruned {
             // pruning legitimately removes the oldest blocks: the node must hold a suffix
-            expected = expected.blocks_from(m.0);
+            expected = expected.blocks_from(post.min_block().map(|b| b.0).unwrap_or(u64::MAX));
         }
         let diffs: Vec<String> = [
             first_diff("cardano_block", &node_part.blocks, &expected.blocks),
@@ -466,33 +480,24 @@ impl Run<'_> {
         .flatten()
         .collect();
         if !diffs.is_empty() {
-            let first_stored_slot = pre.min_block().map(|b| b.1);
-            let below_first = real_rollbacks.iter().find(|(_, slot)| first_stored_slot.is_some_and(|f| *slot < f));
-            let echo_after_forwards = {
-                // a RollBackward to the scan's starting point that arrived after blocks were rolled forward
-                let mut fw = false;
-                let mut hit = false;
-                for s in &served {
-                    match s {
-                        Served::Forward(_) => fw = true,
-                        Served::Backward { slot, .. } if *slot == from_slot && fw => hit = true,
-                        Served::Intersect { .. } => fw = false,
-                        _ => {}
-                    }
-                }
-                hit
-            };
-            let key = if let Some((h, slot)) = below_first {
-                let _ = (h, slot);
+            let first_stored = pre.min_block().map(|b| (b.0, b.1));
+            let below_first = real_rollbacks.iter().any(|(_, slot)| first_stored.is_some_and(|f| *slot < f.1));
+            let on_chain: std::collections::HashSet<String> = chain.iter().map(|b| b.hash_hex()).collect();
+            let stale_blocks = node_part.blocks.iter().any(|b| !on_chain.contains(&b.2));
+            let only_roots_differ = node_part.blocks == expected.blocks && node_part.txs == expected.txs;
+            // a roll-back into a range whose first blocks were pruned
+            let into_pruned_range = self.pruned
+                && real_rollbacks.iter().any(|(h, _)| first_stored.is_some_and(|f| *h >= f.0 && f.0 > (h / RANGE * RANGE).max(1)));
+            let key = if below_first {
                 "C13/rollback-before-first-stored-block-removes-nothing"
             } else if echo_after_forwards {
                 "C13/rollback-to-scan-start-point-ignored-mid-scan"
-            } else if scans == 0 && error.is_none() {
+            } else if scans == 0 && error.is_none() && stale_blocks {
                 "C13/import-skipped-when-target-already-stored-misses-rollback"
+            } else if into_pruned_range && only_roots_differ && error.is_none() {
+                "C13/rollback-into-partly-pruned-range-recomputes-root-from-remaining-blocks"
             } else if error.is_some() {
                 "C13/import-error-leaves-tables-diverged"
-            } else if self.pruned {
-                "C13/tables-diverge-from-fresh-import-after-pruning"
             } else {
                 "C13/tables-diverge-from-fresh-import"
             };
@@ -510,8 +515,10 @@ impl Run<'_> {
                 describe_tables(&fresh.tables),
             );
             self.violations.push(Violation { key: key.into(), what, replay: self.replay_json(&history[..=i]) });
-            self.corrupt = Some(key.to_string());
             self.outcome = format!("violation:{key}");
+            if key != "C13/import-skipped-when-target-already-stored-misses-rollback" {
+                self.corrupt = Some(key.to_string());
+            }
             return;
         }
         if error.is_some() {
@@ -585,7 +592,9 @@ impl Run<'_> {
                 rle(chain.iter().map(|b| (b.number, b.branch))),
                 describe_tables(&post),
             );
-            self.outcome = format!("violation:{key}");
+            if !self.outcome.ends_with("|roots-differ") {
+                self.outcome.push_str("|roots-differ");
+            }
             self.violations.push(Violation { key, what, replay: self.replay_json(&history[..=i]) });
         }
     }
@@ -597,10 +606,18 @@ impl Run<'_> {
         let partial = (b + 1) % RANGE != 0;
         let stored_full = post.roots.iter().any(|r| r.0 == start && r.1 == end);
         if partial && stored_full && start < b {
-            // is the node's answer what a node answers that has imported the whole range?
-            let later = self.fresh.get(chain, end - 1, self.cfg).await;
-            if later.roots_blocks.get(b as usize).is_some_and(|r| same(r, node_root)) {
+            // the tables up to b agree with a fresh import (oracle 1 passed), yet the root differs: does the node
+            // answer for b what it answers for the last block of b's range, i.e. with the stored full-range root?
+            let at_range_end = self.sut.as_ref().unwrap().root_blocks(end - 1).await;
+            if same(&at_range_end, node_root) {
                 return "C13/partial-beacon-root-uses-later-range-root".into();
+            }
+        }
+        if self.pruned && partial {
+            // the partial range has to be computed from blocks that were pruned
+            let have: std::collections::HashSet<u64> = post.blocks.iter().map(|x| x.0).collect();
+            if (start.max(1)..=b.min(chain.len() as u64)).any(|n| !have.contains(&n)) {
+                return "C13/partial-beacon-root-misses-pruned-blocks".into();
             }
         }
         "C13/root-differs-from-fresh-import".into()
@@ -718,10 +735,10 @@ pub fn alphabet(thorough: bool) -> Vec<Ev> {
     v.extend(TARGETS.iter().map(|t| Ev::Import(*t)));
     v.push(Ev::Restart);
     v.push(Ev::Prune(10));
+    v.push(Ev::ArmFork(1));
     v.push(Ev::ArmFork(2));
+    v.push(Ev::ArmFork(3));
     if thorough {
-        v.push(Ev::ArmFork(1));
-        v.push(Ev::ArmFork(3));
         v.push(Ev::Reconnect);
         v.push(Ev::Prune(0));
     }
@@ -778,6 +795,23 @@ pub fn run(ctx: &Ctx) -> ! {
     }
 
     use Ev::*;
+    if std::env::var("MC_PROFILE").is_ok() {
+        let cfg = Cfg { max_roll_forwards: 3, pallas_agency: false };
+        for (name, mode, h) in [
+            ("nominal/ball", Mode::Ball, nominal()),
+            ("nominal/bfs", Mode::Bfs, nominal()),
+            ("3 advances + import/bfs", Mode::Bfs, vec![Advance(16), Advance(16), Advance(16), Import(Target::Tip)]),
+            ("restart only", Mode::Bfs, vec![Restart]),
+        ] {
+            for round in 0..3 {
+                let t = std::time::Instant::now();
+                let r = replay(&scratch, cfg, mode, &fresh, &h);
+                eprintln!("{name} round {round}: {:.1} ms, outcome {}, fresh cache {}", t.elapsed().as_secs_f64() * 1000.0, r.outcome, fresh.len());
+            }
+        }
+        let _ = std::fs::remove_dir_all(&scratch);
+        std::process::exit(0);
+    }
     let p1: Vec<Ev> = vec![Advance(16), Advance(16), Import(Target::Tip)];
     let p2: Vec<Ev> = vec![Advance(16), Advance(16), Advance(16), Import(Target::Abs(44)), Prune(10)];
     let prefixes = vec![vec![], p1, p2];
